@@ -420,6 +420,13 @@ def sendall (mode : Mode) (c : Nat) (data : Bytes) : M Unit := do
   modifyConn c fun x => { x with buf := x.buf ++ data }
   drain mode c (conn.buf.length + data.length + 1)
 
+/-- `FakeSocket.sendall` including the outage check: while the server is marked disconnected every write raises the
+client library's `ConnectionError` and nothing else happens -/
+def sendallGuarded (mode : Mode) (c : Nat) (data : Bytes) : M Unit := do
+  if !(← get).srv.connected then
+    modify fun s => { s with crashed := some "ConnectionError" }
+  else sendall mode c data
+
 /-- RESP encoding of a request (what redis-py's `pack_command` produces) -/
 def encodeRequest (fields : List Bytes) : Bytes :=
   42 :: natDigits fields.length ++ [13, 10] ++
